@@ -1032,3 +1032,56 @@ mod tests {
         assert_eq!(tightened["z"].get_type(), &VariableType::Real(-10.0, 4.0));
     }
 }
+
+/// Observation hooks for the external verification harness (`--cfg rooc_verif`).
+/// Read-only: they run the analyzer exactly as the linearizer does and expose
+/// its results; nothing here is compiled into normal builds.
+#[cfg(rooc_verif)]
+pub mod verif_hooks {
+    use super::{BoundsAnalyzer, BoundsOptions, DEFAULT_MAX_STEPS, DEFAULT_TOLERANCE};
+    use crate::parser::model_transformer::{Constraint, DomainVariable, Exp};
+    use indexmap::IndexMap;
+
+    pub struct BoundsReport {
+        /// (name, lower, upper) of every variable after propagation
+        pub variables: Vec<(String, f64, f64)>,
+        pub reached_iteration_limit: bool,
+        pub detected_infeasible: bool,
+        /// bounds_of for each requested expression, in order
+        pub expressions: Vec<(f64, f64)>,
+        /// the domain after `apply_to_domain`
+        pub domain: IndexMap<String, DomainVariable>,
+    }
+
+    pub fn analyze(
+        domain: &IndexMap<String, DomainVariable>,
+        constraints: &[Constraint],
+        max_steps: Option<usize>,
+        expressions: &[Exp],
+    ) -> BoundsReport {
+        let options = BoundsOptions {
+            tolerance: DEFAULT_TOLERANCE,
+            max_steps: max_steps.unwrap_or(DEFAULT_MAX_STEPS),
+        };
+        let analyzer = BoundsAnalyzer::analyze_with_options(domain, constraints, options);
+        let mut applied = domain.clone();
+        analyzer.apply_to_domain(&mut applied);
+        BoundsReport {
+            variables: analyzer
+                .variable_bounds
+                .iter()
+                .map(|(name, bounds)| (name.clone(), bounds.lower, bounds.upper))
+                .collect(),
+            reached_iteration_limit: analyzer.reached_iteration_limit,
+            detected_infeasible: analyzer.detected_infeasible,
+            expressions: expressions
+                .iter()
+                .map(|exp| {
+                    let bounds = analyzer.bounds_of(exp);
+                    (bounds.lower, bounds.upper)
+                })
+                .collect(),
+            domain: applied,
+        }
+    }
+}
